@@ -202,7 +202,10 @@ def run(model, col, tier):
                 col.check(n.attr in stored, "R16.3", f"{IR}::Linker.{mname_} reads self.{n.attr}", "initialised in __init__",
                           f"`self.{n.attr}` is read in Linker.{mname_} but never initialised: AttributeError as soon as this path runs (e.g. the first import that is loaded)", IR, n)
     addcalls = [c for c in ast.walk(link) if isinstance(c, ast.Call) and last_attr(c) == "AddModule"]
-    col.check(bool(addcalls) and any("Load" in unparse(c.args[0]) for c in addcalls if c.args), "R16.3", f"{IR}::Linker.Link adds what it loads", "self.AddModule(loader.Load(name))", None, IR, link)
+    from ..sem import local_env as _le16, rtext as _rt16
+
+    link_env = _le16(link, allow_impure=True)
+    col.check(bool(addcalls) and any("Load" in _rt16(c.args[0], link_env) for c in addcalls if c.args), "R16.3", f"{IR}::Linker.Link adds what it loads", "self.AddModule(loader.Load(name))", None, IR, link)
     ret = [unparse(r.value) for r in ast.walk(link) if isinstance(r, ast.Return)]
     col.check(len(ret) == 1 and ret[0].startswith("Program(self.__functions, self.__globals"), "R16.3", f"{IR}::Linker.Link result", "Program(functions, globals)", f"returns {ret}", IR, link)
     # ---------------- R16.4 -------------------------------------------------------
